@@ -229,6 +229,8 @@ type sessRun struct {
 	outClosed bool // the output stream was closed
 	dead      bool // Serve has returned (it had to write on an output that cannot take it)
 	badK      map[int]bool // peer stanzas whose content cannot be read to its end
+	stz       map[int]peerStanza // peer stanzas by number
+	nprobe    int
 }
 
 type handlerFn func(t xmlstream.TokenReadEncoder, start *xml.StartElement) error
@@ -243,7 +245,7 @@ func newSessRun(r *common.Run, reqs []reqSpec) (*sessRun, error) {
 	if err != nil {
 		return nil, err
 	}
-	sr := &sessRun{r: r, ctl: ctl, rs: rs, reqs: reqs, table: map[int]int{}, serve: "idle", hit: -1, badK: map[int]bool{}}
+	sr := &sessRun{r: r, ctl: ctl, rs: rs, reqs: reqs, table: map[int]int{}, serve: "idle", hit: -1, badK: map[int]bool{}, stz: map[int]peerStanza{}}
 	n := len(reqs)
 	sr.rstate = make([]string, n)
 	sr.outcome = make([]string, n)
@@ -497,7 +499,7 @@ func (sr *sessRun) act(a string) bool {
 		sr.outClosed = true
 		common.WithTimeout(watchdog, func() { sr.rs.S.Close() })
 	case 'p':
-		if sr.abandonedBad() || (sr.serve != "idle" && !(sr.serve == "offering" && sr.hitGone())) {
+		if sr.abandonedBad() || sr.serve != "idle" {
 			return false
 		}
 		p := parsePeer(a)
@@ -555,7 +557,53 @@ func (sr *sessRun) act(a string) bool {
 	default:
 		return false
 	}
+	sr.checkAbandon()
 	return true
+}
+
+// checkAbandon: the serve loop is inside its hand-off select, the context registered for the
+// matched call is done and that call cannot take the response any more: the serve loop gives up
+// — and the response, which nobody waits for, must reach the handler (trace token A<k>).
+func (sr *sessRun) checkAbandon() {
+	if sr.dead || sr.serve != "offering" || sr.hit < 0 || !sr.hitGone() || sr.rstate[sr.hit] == "insel" || len(sr.problems) > 0 {
+		return
+	}
+	sr.expectAbandon()
+}
+
+func (sr *sessRun) expectAbandon() {
+	k := sr.hitK
+	p := sr.stz[k]
+	exp := "h:" + kindLocal(p.kind) + ":q" + strconv.Itoa(p.id)
+	probe := ""
+	if !p.bad {
+		// a stanza the model does not count, fed behind the response: whichever the handler sees
+		// first tells whether the response was handled or thrown away (no timeout either way)
+		sr.nprobe++
+		probe = "abprobe" + strconv.Itoa(sr.nprobe)
+		go sr.rs.Feed([]byte(`<message xmlns="jabber:client" id="` + probe + `" type="chat"/>`))
+	}
+	e, ok := sr.ctl.Wait(watchdog, func(e Ev) bool { return e.Who == "handler" }, &sr.skipped)
+	switch {
+	case !ok:
+		sr.problem("WATCHDOG waiting for the handler after the serve loop gave up the hand-off of stanza %d", k)
+		sr.serve = "stuck"
+		return
+	case e.What == exp:
+		sr.hlog = append(sr.hlog, k)
+		sr.trace = append(sr.trace, "A"+strconv.Itoa(k))
+		if probe != "" {
+			sr.wait(func(e Ev) bool { return e.Who == "handler" && e.What == "h:message:"+probe }, "the probe behind the abandoned response")
+		}
+	case probe != "" && e.What == "h:message:"+probe:
+		sr.r.Fail("unmatched-to-handler", "dropped-in-cancel-window", sr.lines(), fmt.Sprintf("stanza %d (%s) was looked up for requester %d, whose context was done before the hand-off: no call got it and it did not reach the handler either (the next stanza did)", k, p.tok(), sr.hit))
+	default:
+		sr.problem("handler saw %s, expected %s", e.What, exp)
+	}
+	sr.serve, sr.hit = "idle", -1
+	if p.bad {
+		sr.awaitServeEnd() // the serve loop cannot read the rest of the element
+	}
 }
 
 func (sr *sessRun) respK(i int) int {
@@ -632,6 +680,7 @@ func (sr *sessRun) feed(p peerStanza) {
 	sr.nread++
 	sr.fed = append(sr.fed, p)
 	sr.badK[k] = p.bad
+	sr.stz[k] = p
 	outBefore := sr.rs.Out.Len()
 	autoReply := p.kind == 'i' && p.typ != 'r' && p.typ != 'e' // the serve loop answers an unhandled get/set itself
 	defer func() {
@@ -691,10 +740,7 @@ func (sr *sessRun) feedRaw(p peerStanza) {
 
 // abandonedBad: the serve loop gave up offering an element whose rest cannot be read: Serve returns.
 func (sr *sessRun) abandonedBad() bool {
-	if !sr.dead && sr.serve == "offering" && sr.hitGone() && sr.badK[sr.hitK] {
-		sr.awaitServeEnd()
-		return true
-	}
+	sr.checkAbandon()
 	return sr.dead
 }
 
@@ -826,6 +872,20 @@ func (sr *sessRun) conclude(class string) {
 	}
 	if len(sr.problems) > 0 {
 		obs += " PROBLEM:" + strings.ReplaceAll(strings.Join(sr.problems, ";"), " ", "_")
+		// a watchdog is a clause of the property, not only a disagreement with the model: a call
+		// that has its reply (or whose context ended) and does not return / a serve loop that does
+		// not get on — recorded with the schedule as the failing input (round E self-test M2)
+		for _, pr := range sr.problems {
+			if !strings.HasPrefix(pr, "WATCHDOG") {
+				continue
+			}
+			if strings.Contains(pr, "return") {
+				r.Fail("outcome", "call-does-not-return", sr.lines(), "a blocking call that has been handed its reply, whose context ended or whose transmission failed did not return within the watchdog: "+pr)
+			} else {
+				r.Fail("serve-continues", "no-progress", sr.lines(), "the serve loop or a call did not reach the next step of the schedule within the watchdog: "+pr)
+			}
+			break
+		}
 	}
 	line := "sess " + sr.reqField() + " " + common.Join(sr.trace, ",")
 	r.Line(line, obs)
